@@ -140,11 +140,12 @@ theorem binomial_pw (x y : ℚ) (p : ℕ) :
 
 /-- Generic convolution over compositions: if `t (a+b) p = Σ_{i+j=p} t a i · t b j` and
     `t 0 k = [k = 0]`, then summing `∏ t α_i c_i` over all count vectors `c` of sum `p`
-    gives `t (Σ α) p`. -/
-theorem conv_compositions (t : ℚ → ℕ → ℚ)
+    gives `t (Σ α) p`.  (`α` ranges over any additive monoid: `ℚ` for rising factorials and powers,
+    `ℕ` for binomial coefficients / the multivariate Vandermonde identity.) -/
+theorem conv_compositions {M : Type} [AddCommMonoid M] (t : M → ℕ → ℚ)
     (hadd : ∀ a b p, ∑ ij ∈ antidiagonal p, t a ij.1 * t b ij.2 = t (a + b) p)
     (hzero : ∀ k, t 0 k = if k = 0 then 1 else 0) :
-    ∀ (alphas : List ℚ) (p : ℕ),
+    ∀ (alphas : List M) (p : ℕ),
       ((compositions alphas.length p).map
         (fun c => ((alphas.zip c).map (fun ac => t ac.1 ac.2)).prod)).sum = t alphas.sum p := by
   intro alphas
